@@ -197,7 +197,8 @@ class IOPlan:
         self.calls.append((kind, rel))
         if self.k is not None and idx == self.k and self.fired is None:
             self.fired = (kind, rel)
-            raise OSError(getattr(errno, self.err), os.strerror(getattr(errno, self.err)), rel)
+            err = "EMFILE" if (kind == "tread" and self.err == "ENOSPC") else self.err  # a read does not run out of space
+            raise OSError(getattr(errno, err), os.strerror(getattr(errno, err)), rel)
 
     def under(self, path):
         try:
@@ -250,11 +251,19 @@ class io_seam:
         self._io_open = io.open
         real_open = self._open
 
+        import func_adl_xAOD
+        tmpl_root = os.path.join(os.path.dirname(os.path.realpath(func_adl_xAOD.__file__)), "template") + os.sep
+
         def open_(file, mode="r", *a, **kw):
             rel = plan.under(file) if isinstance(file, (str, bytes, os.PathLike)) else None
             if rel is not None and any(c in mode for c in "wax+"):
                 plan._hit("open", rel)
                 return _FaultyFile(real_open(file, mode, *a, **kw), plan, rel)
+            if rel is None and isinstance(file, (str, os.PathLike)) and not any(c in mode for c in "wax+"):
+                # a template file being read (EMFILE / EIO on the read side of the write phase)
+                fp = os.path.realpath(os.fspath(file))
+                if fp.startswith(tmpl_root):
+                    plan._hit("tread", "template:" + os.path.basename(fp))
             return real_open(file, mode, *a, **kw)
 
         real_chmod = self._chmod
